@@ -89,6 +89,28 @@ theorem segment_ids (i : Nat) (prev : Int) (hprev : prev = 3 * i * (i + 1)) :
   subst hprev
   constructor <;> ring
 
+/-- last id handed out after ring `i`, by the generated id arithmetic (`ids = arange(prev+1, prev+1+len)`, `prev = ids[-1]`),
+with `len = 6i` cells in ring `i` (`hex_ring_card`) -/
+def lastId : Nat → Int
+  | 0 => 0
+  | i + 1 => Generated.C18.idsHi (lastId i) (6 * ((i : Int) + 1)) - 1
+
+/-- THE DOCUMENTED NUMBER OF SEGMENTS, by induction over the rings: after `R` rings the last id is `3R(R+1)`, i.e. there are
+`1 + 3R(R+1)` segments before exclusion, and ring `i+1` starts at id `1 + 3i(i+1)` -/
+theorem segment_count (R : Nat) :
+    lastId R = 3 * (R : Int) * (R + 1) ∧ Generated.C18.idsLo (lastId R) (6 * ((R : Int) + 1)) = 1 + 3 * (R : Int) * (R + 1) := by
+  have h : ∀ n : Nat, lastId n = 3 * (n : Int) * (n + 1) := by
+    intro n
+    induction n with
+    | zero => simp [lastId]
+    | succ n ih =>
+      simp only [lastId, Generated.C18.idsHi, ih]
+      push_cast
+      ring
+  refine ⟨h R, ?_⟩
+  simp only [Generated.C18.idsLo, h R]
+  ring
+
 /-! ## windows -/
 
 /-- the generated clamp always yields `0 ≤ lo ≤ hi ≤ n` (a valid, possibly empty slice) with at most `2s` samples,
@@ -281,6 +303,63 @@ theorem hex_vertices_in_slabs (w rho x0 y0 : K) (hw : w * w = 3) (hw0 : 0 < w) (
     rcases hv with rfl | rfl | rfl | rfl | rfl | rfl <;>
       simp only [inHex, inSlabs, slabs, Bool.false_eq_true, if_false, slabs0] <;>
       refine ⟨⟨?_, ?_⟩, ⟨?_, ?_⟩, ⟨?_, ?_⟩⟩ <;> nlinarith
+
+/-- a slab `−a ≤ · ≤ a` is convex -/
+theorem slab_convex (a u v t : K) (ht0 : 0 ≤ t) (ht1 : t ≤ 1) (hu : -a ≤ u ∧ u ≤ a) (hv : -a ≤ v ∧ v ≤ a) :
+    -a ≤ (1 - t) * u + t * v ∧ (1 - t) * u + t * v ≤ a := by
+  have h1t : 0 ≤ 1 - t := by linarith
+  constructor
+  · nlinarith [mul_le_mul_of_nonneg_left hu.1 h1t, mul_le_mul_of_nonneg_left hv.1 ht0]
+  · nlinarith [mul_le_mul_of_nonneg_left hu.2 h1t, mul_le_mul_of_nonneg_left hv.2 ht0]
+
+/-- the slab hexagon is convex -/
+theorem hex_convex (rot90 : Bool) (w a cx cy px py qx qy t : K) (ht0 : 0 ≤ t) (ht1 : t ≤ 1)
+    (hp : inHex rot90 w a cx cy px py) (hq : inHex rot90 w a cx cy qx qy) :
+    inHex rot90 w a cx cy ((1 - t) * px + t * qx) ((1 - t) * py + t * qy) := by
+  cases rot90
+  · simp only [inHex, inSlabs, slabs, Bool.false_eq_true, if_false, slabs0] at hp hq ⊢
+    obtain ⟨p1, p2, p3⟩ := hp
+    obtain ⟨q1, q2, q3⟩ := hq
+    have r1 := slab_convex a _ _ t ht0 ht1 p1 q1
+    have r2 := slab_convex a _ _ t ht0 ht1 p2 q2
+    have r3 := slab_convex a _ _ t ht0 ht1 p3 q3
+    refine ⟨?_, ?_, ?_⟩
+    · convert r1 using 2 <;> ring
+    · convert r2 using 2 <;> ring
+    · convert r3 using 2 <;> ring
+  · simp only [inHex, inSlabs, slabs, if_true, slabs90] at hp hq ⊢
+    obtain ⟨p1, p2, p3⟩ := hp
+    obtain ⟨q1, q2, q3⟩ := hq
+    have r1 := slab_convex a _ _ t ht0 ht1 p1 q1
+    have r2 := slab_convex a _ _ t ht0 ht1 p2 q2
+    have r3 := slab_convex a _ _ t ht0 ht1 p3 q3
+    refine ⟨?_, ?_, ?_⟩
+    · convert r1 using 2 <;> ring
+    · convert r2 using 2 <;> ring
+    · convert r3 using 2 <;> ring
+
+/-- convex hull of a finite set of points, generated by vertices and segment mixing -/
+inductive InHull (vs : List (K × K)) : K × K → Prop
+  | vertex (v : K × K) (h : v ∈ vs) : InHull vs v
+  | mix (p q : K × K) (t : K) (hp : InHull vs p) (hq : InHull vs q) (ht0 : 0 ≤ t) (ht1 : t ≤ 1) :
+      InHull vs ((1 - t) * p.1 + t * q.1, (1 - t) * p.2 + t * q.2)
+
+/-- THE MISSING CONVEXITY STEP: the convex hull of the six vertices `regular_polygon(6, ρ, …)` hands to qhull lies inside the
+closed slab hexagon of apothem `ρ√3/2` (both orientations).  With qhull's `find_simplex` = hull membership (trusted) every
+rasterised segment mask is a subset of its slab hexagon, so `hex_disjoint` applies to the masks. -/
+theorem hex_hull_in_slabs (w rho x0 y0 : K) (hw : w * w = 3) (hw0 : 0 < w) (hr : 0 ≤ rho) (p : K × K) :
+    (InHull (Generated.C18.hexVertices90 w rho x0 y0) p → inHex true w (rho * w / 2) x0 y0 p.1 p.2) ∧
+    (InHull (Generated.C18.hexVertices0 w rho x0 y0) p → inHex false w (rho * w / 2) x0 y0 p.1 p.2) := by
+  have hv := hex_vertices_in_slabs w rho x0 y0 hw hw0 hr
+  constructor
+  · intro h
+    induction h with
+    | vertex v hv' => exact hv.1 v hv'
+    | mix p q t _ _ ht0 ht1 ihp ihq => exact hex_convex true w _ x0 y0 p.1 p.2 q.1 q.2 t ht0 ht1 ihp ihq
+  · intro h
+    induction h with
+    | vertex v hv' => exact hv.2 v hv'
+    | mix p q t _ _ ht0 ht1 ihp ihq => exact hex_convex false w _ x0 y0 p.1 p.2 q.1 q.2 t ht0 ht1 ihp ihq
 
 /-- the slab hexagon has the symmetry of its shape: it is invariant under the point reflection through its centre
 and under the mirror in both coordinate axes through the centre (both orientations) -/
